@@ -7,7 +7,9 @@ import (
 	"sort"
 	"strings"
 	"testing"
+	"time"
 
+	"github.com/256dpi/gomqtt/broker"
 	"github.com/256dpi/gomqtt/packet"
 	"pgregory.net/rapid"
 
@@ -43,10 +45,38 @@ type Msg struct {
 	Empty  bool   `json:"empty,omitempty"`
 }
 
-// Case is a history.
+// Case is a history - or, with Busy set, a set of operations that queue up
+// behind a busy backend and are then let go at once.
 type Case struct {
 	Clients int  `json:"clients"`
 	Ops     []Op `json:"ops"`
+
+	Pre         []string `json:"pre,omitempty"`         // topics that hold a retained message beforehand
+	Subscribers int      `json:"subscribers,omitempty"` // busy: number of subscribers
+	Busy        []BOp    `json:"busy,omitempty"`
+	Own         *OwnCase `json:"own,omitempty"`
+}
+
+// OwnCase: a retained QoS 1/2 publish by a client whose own matching
+// subscription queue is full (the memory backend refuses it with
+// ErrQueueFull and the connection ends); the client resumes its session,
+// drains the backlog and completes the handshake.
+type OwnCase struct {
+	Queue  int    `json:"queue"`
+	Window int    `json:"window"`
+	QoS    int    `json:"qos"`
+	Pre    bool   `json:"pre,omitempty"`
+	Filter string `json:"filter"`
+}
+
+// BOp is an operation issued while the backend is busy: "retain" (a retained
+// publish, each from a connection of its own) or "sub" (SUBSCRIBE by subscriber Who).
+type BOp struct {
+	Kind   string `json:"k"`
+	Topic  string `json:"t,omitempty"`
+	QoS    int    `json:"q,omitempty"`
+	Filter string `json:"f,omitempty"`
+	Who    int    `json:"w,omitempty"`
 }
 
 type verdict struct{ sig, msg string }
@@ -411,6 +441,378 @@ func runCase(c *Case, st *stats) *verdict {
 	return nil
 }
 
+// runBusy: retained publishes and subscriptions that meet inside the backend.
+// The memory backend is held inside the acknowledgement of an unrelated publish
+// (it acknowledges while holding its global mutex); meanwhile retained
+// publishes - each on its own connection - and SUBSCRIBEs are sent, so that
+// all of them wait at the backend and then run back to back in one burst.
+// Whatever order they run in, publishing and subscribing are atomic with
+// respect to each other, hence: a subscriber must have received (as replay or
+// live) the value that a topic matching its filter retains in the end - it
+// either subscribed before that publish (live copy) or after it (replay).
+func runBusy(c *Case) *verdict {
+	b := bk.New(nil)
+	defer b.Shutdown()
+	fail := func(sig, format string, a ...interface{}) *verdict {
+		ls := strings.Split(strings.TrimRight(b.Log.Dump(), "\n"), "\n")
+		if len(ls) > 120 {
+			ls = ls[len(ls)-120:]
+		}
+		return &verdict{sig, fmt.Sprintf(format, a...) + "\n--- event log tail ---\n" + strings.Join(ls, "\n")}
+	}
+	mk := func(name string) (*peer.Peer, *verdict) {
+		p, _ := b.Dial(name)
+		if _, err := p.ConnectID("c11-"+name, true); err != nil {
+			return nil, fail("harness/connect", "%v", err)
+		}
+		return p, nil
+	}
+	seed, v := mk("seed")
+	if v != nil {
+		return v
+	}
+	final := map[string]string{}
+	for _, tp := range c.Pre {
+		pl := "v0:" + tp
+		if err := seed.Publish(tp, []byte(pl), 1, true); err != nil {
+			return fail("harness/publish", "%v", err)
+		}
+		final[tp] = pl
+	}
+	subs := make([]*peer.Peer, c.Subscribers)
+	for i := range subs {
+		if subs[i], v = mk(fmt.Sprintf("s%d", i)); v != nil {
+			return v
+		}
+		if _, err := subs[i].Subscribe([]packet.Subscription{{Topic: peer.MarkerTopic, QOS: 1}}); err != nil {
+			return fail("harness/subscribe", "%v", err)
+		}
+	}
+	var pubs []*peer.Peer
+	for _, o := range c.Busy {
+		if o.Kind == "retain" {
+			p, v := mk(fmt.Sprintf("p%d", len(pubs)))
+			if v != nil {
+				return v
+			}
+			pubs = append(pubs, p)
+		}
+	}
+	blocker, v := mk("blocker")
+	if v != nil {
+		return v
+	}
+	entered, release := b.Rec.HoldAck("blocker-msg")
+	defer release()
+	_ = blocker.Send(&packet.Publish{ID: 1, Message: packet.Message{Topic: "c11/block", QOS: 1, Payload: []byte("blocker-msg")}})
+	select {
+	case <-entered:
+	case <-time.After(ev.Ceiling()):
+		return fail("harness/busy", "the backend never reached the held acknowledgement")
+	}
+	// queue the operations
+	type sent struct {
+		p  *peer.Peer
+		id packet.ID
+	}
+	var awaitAcks, awaitSubacks []sent
+	filtersOf := make([][]string, c.Subscribers)
+	np := 0
+	for i, o := range c.Busy {
+		switch o.Kind {
+		case "retain":
+			p := pubs[np]
+			np++
+			pl := fmt.Sprintf("v%d:%s", i+1, o.Topic)
+			pub := &packet.Publish{Message: packet.Message{Topic: o.Topic, QOS: packet.QOS(o.QoS), Retain: true, Payload: []byte(pl)}}
+			if o.QoS > 0 {
+				pub.ID = p.NextID()
+				awaitAcks = append(awaitAcks, sent{p, pub.ID})
+			}
+			_ = p.Send(pub)
+		case "sub":
+			p := subs[o.Who]
+			id := p.NextID()
+			_ = p.Send(&packet.Subscribe{ID: id, Subscriptions: []packet.Subscription{{Topic: o.Filter, QOS: packet.QOS(o.QoS)}}})
+			awaitSubacks = append(awaitSubacks, sent{p, id})
+			filtersOf[o.Who] = append(filtersOf[o.Who], o.Filter)
+		}
+		time.Sleep(300 * time.Microsecond) // lets the call reach the backend before the next one (order is not relied upon)
+	}
+	release()
+	for _, a := range awaitAcks {
+		a := a
+		if a.p.WaitFor(0, func(g packet.Generic) bool { x, ok := g.(*packet.Puback); return ok && x.ID == a.id }, ev.Ceiling()) < 0 {
+			return fail("harness/puback", "%s: retained publish id %d not acknowledged after the backend was released", a.p.Name, a.id)
+		}
+	}
+	for _, a := range awaitSubacks {
+		a := a
+		if a.p.WaitFor(0, func(g packet.Generic) bool { x, ok := g.(*packet.Suback); return ok && x.ID == a.id }, ev.Ceiling()) < 0 {
+			return fail("subscribe/no-suback", "%s: SUBSCRIBE id %d not acknowledged after the backend was released", a.p.Name, a.id)
+		}
+	}
+	// barrier: markers from every publisher reach every subscriber behind all their publishes
+	for k, p := range pubs {
+		tag := fmt.Sprintf("busy-%d", k)
+		if err := p.Markers(tag); err != nil {
+			return fail("harness/marker-publish", "%v", err)
+		}
+		for _, sp := range subs {
+			if !sp.AwaitMarkers(0, tag) {
+				return fail("delivery/barrier-marker-missing", "%s never received the markers %q (eof=%v)", sp.Name, tag, sp.EOF)
+			}
+		}
+	}
+	// ... and one barrier behind everything (the replays of the last SUBSCRIBEs included)
+	if err := seed.Markers("end"); err != nil {
+		return fail("harness/marker-publish", "%v", err)
+	}
+	for _, sp := range subs {
+		if !sp.AwaitMarkers(0, "end") {
+			return fail("delivery/barrier-marker-missing", "%s never received the final markers (eof=%v)", sp.Name, sp.EOF)
+		}
+	}
+	// what does the broker retain in the end? ask a fresh subscriber
+	fresh, v := mk("fresh")
+	if v != nil {
+		return v
+	}
+	if _, err := fresh.Subscribe([]packet.Subscription{{Topic: "#", QOS: 1}}); err != nil {
+		return fail("harness/subscribe", "%v", err)
+	}
+	if err := seed.Markers("fresh"); err != nil {
+		return fail("harness/marker-publish", "%v", err)
+	}
+	if !fresh.AwaitMarkers(0, "fresh") {
+		return fail("delivery/barrier-marker-missing", "the fresh subscriber never received its markers")
+	}
+	published := map[string]map[string]bool{}
+	for tp, pl := range final {
+		published[tp] = map[string]bool{pl: true}
+	}
+	for i, o := range c.Busy {
+		if o.Kind == "retain" {
+			if published[o.Topic] == nil {
+				published[o.Topic] = map[string]bool{}
+			}
+			published[o.Topic][fmt.Sprintf("v%d:%s", i+1, o.Topic)] = true
+		}
+	}
+	end := map[string]string{}
+	for _, pub := range fresh.Publishes(0) {
+		if !pub.Message.Retain {
+			continue
+		}
+		if _, dup := end[pub.Message.Topic]; dup {
+			return fail("replay/duplicate", "the fresh subscriber received two retained messages for %q", pub.Message.Topic)
+		}
+		if !published[pub.Message.Topic][string(pub.Message.Payload)] {
+			return fail("replay/unknown-message", "the broker retains %q for %q, which nobody published there", pub.Message.Payload, pub.Message.Topic)
+		}
+		end[pub.Message.Topic] = string(pub.Message.Payload)
+	}
+	for tp := range published {
+		if _, ok := end[tp]; !ok {
+			return fail("retained/lost", "retained messages were published to %q (no clear), yet the broker retains nothing for it in the end", tp)
+		}
+	}
+	// every subscriber knows the final value of every matching topic
+	for i, sp := range subs {
+		got := map[string]map[string]bool{}
+		for _, pub := range sp.Publishes(0) {
+			if got[pub.Message.Topic] == nil {
+				got[pub.Message.Topic] = map[string]bool{}
+			}
+			got[pub.Message.Topic][string(pub.Message.Payload)] = true
+			if !published[pub.Message.Topic][string(pub.Message.Payload)] {
+				return fail("delivery/unknown-message", "%s received %q on %q, which nobody published there", sp.Name, pub.Message.Payload, pub.Message.Topic)
+			}
+		}
+		for tp, val := range end {
+			matches := false
+			for _, f := range filtersOf[i] {
+				if reftopic.Match(f, tp) {
+					matches = true
+				}
+			}
+			if matches && !got[tp][val] {
+				var seen []string
+				for x := range got[tp] {
+					seen = append(seen, x)
+				}
+				sort.Strings(seen)
+				return fail("busy/subscriber-missed-retained-update", "%s subscribed to %v while retained publishes were in progress; the broker ends up retaining %q for %q, but the subscriber only ever received %v for that topic: the update reached it neither live nor in the replay", sp.Name, filtersOf[i], val, tp, seen)
+			}
+		}
+	}
+	return nil
+}
+
+// runOwn: once the handshake of a retained QoS 1/2 publish is complete the
+// broker retains that message - also when the first attempt ran into the
+// publisher's own full queue and only the resumed session finished it.
+func runOwn(c *Case) *verdict {
+	o := c.Own
+	b := bk.New(func(m *broker.MemoryBackend, e *broker.Engine) {
+		m.SessionQueueSize = o.Queue
+		m.ClientInflightMessages = o.Window
+	})
+	defer b.Shutdown()
+	fail := func(sig, format string, a ...interface{}) *verdict {
+		ls := strings.Split(strings.TrimRight(b.Log.Dump(), "\n"), "\n")
+		if len(ls) > 150 {
+			ls = ls[len(ls)-150:]
+		}
+		return &verdict{sig, fmt.Sprintf(format, a...) + "\n--- event log tail ---\n" + strings.Join(ls, "\n")}
+	}
+	const tp = "a/b"
+	seed, _ := b.Dial("seed")
+	if _, err := seed.ConnectID("c11-seed", true); err != nil {
+		return fail("harness/connect", "%v", err)
+	}
+	if o.Pre {
+		if err := seed.Publish(tp, []byte("v1"), 1, true); err != nil {
+			return fail("harness/publish", "%v", err)
+		}
+	}
+	p, _ := b.Dial("own")
+	if _, err := p.ConnectID("c11-own", false); err != nil {
+		return fail("harness/connect", "%v", err)
+	}
+	if _, err := p.Subscribe([]packet.Subscription{{Topic: o.Filter, QOS: 1}}); err != nil {
+		return fail("harness/subscribe", "%v", err)
+	}
+	if o.Pre {
+		// the replay of v1 is received and acknowledged first (it would occupy a window slot)
+		if p.WaitFor(0, func(g packet.Generic) bool { x, ok := g.(*packet.Publish); return ok && string(x.Message.Payload) == "v1" }, ev.Ceiling()) < 0 {
+			return fail("replay/missing-retained-message", "the subscription to %s did not replay the retained v1", o.Filter)
+		}
+	}
+	if !p.Ping() {
+		return fail("harness/ping", "no PINGRESP")
+	}
+	p.AutoAck = false
+	// fill the window, then the queue, with the client's own messages
+	for i := 0; i < o.Window+o.Queue; i++ {
+		tag := fmt.Sprintf("fill-%d", i)
+		if err := p.Publish(tp, []byte(tag), 1, false); err != nil {
+			return fail("harness/fill", "fill publish %d of %d: %v", i, o.Window+o.Queue, err)
+		}
+		if i < o.Window {
+			// wait until it came back (it occupies a window slot from then on)
+			if p.WaitFor(0, func(g packet.Generic) bool { x, ok := g.(*packet.Publish); return ok && string(x.Message.Payload) == tag }, ev.Ceiling()) < 0 {
+				return fail("harness/fill", "own message %s did not come back", tag)
+			}
+		}
+	}
+	// the retained publish
+	id := packet.ID(500)
+	pub := &packet.Publish{ID: id, Message: packet.Message{Topic: tp, QOS: packet.QOS(o.QoS), Retain: true, Payload: []byte("v2")}}
+	state := "publish" // what has to be sent next: publish | release | done
+	for attempt := 0; attempt < 8 && state != "done"; attempt++ {
+		if attempt > 0 {
+			// resume the session; acknowledge and so drain the backlog
+			p, _ = b.Dial(fmt.Sprintf("own-%d", attempt))
+			if _, err := p.ConnectID("c11-own", false); err != nil {
+				return fail("harness/connect", "resume: %v", err)
+			}
+			if !p.Ping() {
+				continue
+			}
+			// the queue behind the window empties as the acknowledgements go out
+			deadline := time.Now().Add(ev.Ceiling() / 4)
+			for n := -1; time.Now().Before(deadline); {
+				p.PumpWait(20 * time.Millisecond)
+				if m := len(p.Inbox); m == n {
+					break
+				} else {
+					n = m
+				}
+			}
+		}
+		from := len(p.Inbox)
+		switch state {
+		case "publish":
+			pub.Dup = attempt > 0
+			_ = p.Send(pub)
+			if o.QoS == 1 {
+				if p.WaitFor(from, func(g packet.Generic) bool { x, ok := g.(*packet.Puback); return ok && x.ID == id }, ev.Ceiling()) >= 0 {
+					state = "done"
+				}
+				continue
+			}
+			if p.WaitFor(from, func(g packet.Generic) bool { x, ok := g.(*packet.Pubrec); return ok && x.ID == id }, ev.Ceiling()) < 0 {
+				continue
+			}
+			state = "release"
+			fallthrough
+		case "release":
+			_ = p.Send(&packet.Pubrel{ID: id})
+			if p.WaitFor(from, func(g packet.Generic) bool { x, ok := g.(*packet.Pubcomp); return ok && x.ID == id }, ev.Ceiling()) >= 0 {
+				state = "done"
+			}
+		}
+		if state != "done" && !p.EOF {
+			return fail("own/no-answer", "retained QoS %d publish: neither the acknowledgement nor the end of the connection (state %s)", o.QoS, state)
+		}
+	}
+	if state != "done" {
+		return fail("harness/own-loop", "the handshake of the retained publish could not be completed in 8 connections")
+	}
+	fresh, _ := b.Dial("fresh")
+	if _, err := fresh.ConnectID("c11-fresh", true); err != nil {
+		return fail("harness/connect", "%v", err)
+	}
+	if _, err := fresh.Subscribe([]packet.Subscription{{Topic: "#", QOS: 1}}); err != nil {
+		return fail("harness/subscribe", "%v", err)
+	}
+	if err := seed.Markers("own"); err != nil {
+		return fail("harness/marker-publish", "%v", err)
+	}
+	if !fresh.AwaitMarkers(0, "own") {
+		return fail("delivery/barrier-marker-missing", "the fresh subscriber never received its markers")
+	}
+	var got []string
+	for _, x := range fresh.Publishes(0) {
+		if x.Message.Retain && x.Message.Topic == tp {
+			got = append(got, string(x.Message.Payload))
+		}
+	}
+	if len(got) != 1 || got[0] != "v2" {
+		return fail("own/retained-not-updated", "the QoS %d handshake of the retained publish \"v2\" on %s was completed (first attempt refused with the publisher's own queue full, finished after the session was resumed), yet a new subscriber is replayed %v", o.QoS, tp, got)
+	}
+	return nil
+}
+
+func genBusy(rt *rapid.T) *Case {
+	c := &Case{Subscribers: rapid.IntRange(1, 3).Draw(rt, "subscribers")}
+	for _, tp := range topics {
+		if rapid.Bool().Draw(rt, "pre") {
+			c.Pre = append(c.Pre, tp)
+		}
+	}
+	fs := []string{"#", "a/#", "+", "a/+", "a", "a/b", "a/b/c", "b", "a/", "+/b", "a/+/c"}
+	n := rapid.IntRange(2, 8).Draw(rt, "n")
+	for i := 0; i < n; i++ {
+		if rapid.Bool().Draw(rt, "isretain") {
+			c.Busy = append(c.Busy, BOp{Kind: "retain", Topic: rapid.SampledFrom(topics).Draw(rt, "topic"), QoS: rapid.IntRange(0, 1).Draw(rt, "pq")})
+		} else {
+			c.Busy = append(c.Busy, BOp{Kind: "sub", Who: rapid.IntRange(0, c.Subscribers-1).Draw(rt, "who"), Filter: rapid.SampledFrom(fs).Draw(rt, "filter"), QoS: rapid.IntRange(0, 2).Draw(rt, "sq")})
+		}
+	}
+	return c
+}
+
+func busyNonTrivial(c *Case) bool {
+	r, s := false, false
+	for _, o := range c.Busy {
+		r = r || o.Kind == "retain"
+		s = s || o.Kind == "sub"
+	}
+	return r && s
+}
+
 func fmtOp(o Op) string {
 	s := fmt.Sprintf("%s c=%d", o.Kind, o.Client)
 	if o.Msg != nil {
@@ -489,7 +891,7 @@ func genCase(rt *rapid.T) *Case {
 
 func TestC11(t *testing.T) {
 	run := ev.Start("C11", "exploration")
-	run.Rule(fmt.Sprintf("rapid-generated histories over 1-3 raw peers and 5 topics: publishes {retained, retained-empty (clear), live, live-empty} at QoS 0-2, connects with retained/non-retained wills, drops (will fires) and DISCONNECTs, persistent subscribers going offline, SUBSCRIBEs with 1-3 filters (and repeats) drawn from the bounded-exhaustive filter set (%d filters: levels {a,b,empty,+} depth<=3, optional trailing #); plus one deterministic sweep subscribing with every filter of the set against a fixed retained set. After every step a marker barrier, then every inbox is compared with the model (topic -> last non-empty retained message; reference matcher; QoS of any matching subscription). non-trivial = a wildcard filter with at least one retained topic that does not match, or a retained will; distinct by case JSON", len(filters)))
+	run.Rule(fmt.Sprintf("rapid-generated histories over 1-3 raw peers and 5 topics: publishes {retained, retained-empty (clear), live, live-empty} at QoS 0-2, connects with retained/non-retained wills, drops (will fires) and DISCONNECTs, persistent subscribers going offline, SUBSCRIBEs with 1-3 filters (and repeats) drawn from the bounded-exhaustive filter set (%d filters: levels {a,b,empty,+} depth<=3, optional trailing #); plus one deterministic sweep subscribing with every filter of the set against a fixed retained set. After every step a marker barrier, then every inbox is compared with the model (topic -> last non-empty retained message; reference matcher; QoS of any matching subscription). non-trivial = a wildcard filter with at least one retained topic that does not match, or a retained will; distinct by case JSON Busy backend: while the memory backend is held inside an unrelated acknowledgement (it acknowledges under its global mutex), 2-8 retained publishes (each on its own connection) and SUBSCRIBEs of 1-3 subscribers are sent so that they meet inside the backend, then all are let go: every subscriber must have received - live or as replay - the value that each topic matching its filters retains in the end (read back by a fresh subscriber). Own queue full: a retained QoS 1/2 publish by a persistent client into its own full subscription queue (queue 1-3, window 1-2, enumerated) is refused once, completed after resume and drain, and must then be the retained message.", len(filters)))
 	run.Assume("in-memory transport; peers acknowledge everything; fewer than 100 replays per SUBSCRIBE (documented queue size)")
 	defer run.Finish(t)
 	shard, _ := ev.Shard()
@@ -593,6 +995,61 @@ func TestC11(t *testing.T) {
 		}
 	})
 	run.Set("subscribe_steps_checked", subs)
+
+	// retained publishes and subscriptions meeting inside a busy backend
+	fixedBusy := []*Case{
+		{Pre: []string{"a"}, Subscribers: 1, Busy: []BOp{{Kind: "retain", Topic: "a", QoS: 1}, {Kind: "sub", Who: 0, Filter: "a", QoS: 1}}},
+		{Pre: []string{"a/b"}, Subscribers: 2, Busy: []BOp{{Kind: "sub", Who: 0, Filter: "a/#", QoS: 0}, {Kind: "retain", Topic: "a/b", QoS: 0}, {Kind: "sub", Who: 1, Filter: "+/b", QoS: 2}, {Kind: "retain", Topic: "a/b", QoS: 1}}},
+	}
+	if shard == 0 {
+		for _, c := range fixedBusy {
+			run.Eval(1)
+			run.NonTrivialJSON(c)
+			if v := runBusy(c); v != nil {
+				run.Violation(v.sig, v.msg, c)
+			}
+		}
+	}
+	// retained publish refused once because of the publisher's own full queue
+	{
+		_, shards := ev.Shard()
+		idx, count := 0, 0
+		for _, q := range []int{1, 2, 3} {
+			for _, w := range []int{1, 2} {
+				for _, qos := range []int{1, 2} {
+					for _, pre := range []bool{false, true} {
+						for _, f := range []string{"a/b", "a/#", "+/b"} {
+							idx++
+							if idx%shards != shard {
+								continue
+							}
+							c := &Case{Own: &OwnCase{Queue: q, Window: w, QoS: qos, Pre: pre, Filter: f}}
+							run.Eval(1)
+							run.NonTrivialJSON(c)
+							count++
+							if v := runOwn(c); v != nil {
+								run.Violation(v.sig, v.msg, c)
+							}
+						}
+					}
+				}
+			}
+		}
+		run.ClassN("own-queue-full", count)
+		run.Exhaustive("retained QoS 1/2 publish into the publisher's own full queue, completed after a resume: queue 1-3 x window 1-2 x QoS 1-2 x prior retained message yes/no x 3 subscription filters")
+	}
+	run.Rapid(t, "busy", ev.Pick(150, 6000), func(rt *rapid.T) {
+		c := genBusy(rt)
+		run.Eval(1)
+		run.Class("busy-backend")
+		if busyNonTrivial(c) {
+			run.NonTrivialJSON(c)
+		}
+		if v := runBusy(c); v != nil {
+			run.Candidate(v.sig, v.msg, c)
+			rt.Fatalf("%s: %s", v.sig, v.msg)
+		}
+	})
 }
 
 func TestReplay(t *testing.T) {
@@ -605,6 +1062,18 @@ func TestReplay(t *testing.T) {
 		t.Fatal(err)
 	}
 	for i := 0; i < 5; i++ {
+		if c.Own != nil {
+			if v := runOwn(&c); v != nil {
+				t.Fatalf("VIOLATION reproduced: %s: %s", v.sig, v.msg)
+			}
+			continue
+		}
+		if len(c.Busy) > 0 {
+			if v := runBusy(&c); v != nil {
+				t.Fatalf("VIOLATION reproduced: %s: %s", v.sig, v.msg)
+			}
+			continue
+		}
 		if v := runCase(&c, &stats{}); v != nil {
 			t.Fatalf("VIOLATION reproduced: %s: %s", v.sig, v.msg)
 		}
